@@ -346,6 +346,14 @@ def gen_header(rng, tr, feat):
             lines.append("     " + v2)
             meta[k].append(v2)
             feat.add("meta-continuation")
+    if rng.random() < 0.3:
+        # `summary:` is metadata too, but its value is shown (converted like the comment): several words on one line
+        vs = " ".join(f"m{tr.eid}summary{rng.randint(0, 99)}" for _ in range(rng.randint(1, 3)))
+        # (never between a key and its continuation line)
+        at = rng.choice([i for i in range(len(lines) + 1) if i == len(lines) or not lines[i].startswith(" ")])
+        lines.insert(at, "summary:" + rng.choice([" ", "  "]) + vs)
+        meta["summary"] = [vs]
+        feat.add("meta-summary")
     feat.add("meta-header")
     return lines, meta
 
@@ -1233,7 +1241,18 @@ def tree_entities(sf, root):
 
 def str_meta(it):
     m = getattr(it, "meta", None)
-    return {key: getattr(m, key) for key in STR_META if getattr(m, key, None) is not None}
+    out = {key: getattr(m, key) for key in STR_META if getattr(m, key, None) is not None}
+    summ = getattr(m, "summary", None)
+    if isinstance(summ, str) and re.search(r"m\d+summary\d+|m \d", summ):
+        # after conversion the summary is HTML: what it says is its text, blanks normalised
+        from bs4 import BeautifulSoup
+        if "<" in summ:
+            soup = BeautifulSoup(summ, "html.parser")
+            for a in soup.find_all("a", class_="pull-right"):
+                a.decompose()  # FORD's own "Read more..." link to the entity's page, not part of the value
+            summ = " ".join(soup.get_text().split())
+        out["summary"] = summ
+    return out
 
 
 def observe(ford, d: Path, lines, marks, A, captured, skip_attrs=("external_url",), display=None, inherited=(),
@@ -1945,7 +1964,7 @@ def program_stream(ford, drv, rng, n, rep, hist, samples, distinct, replay_case=
                         for (n_, mmeta, _), e in zip(m_ents, reg_ents):
                             # (the attach model ends where parsing ends; what `correlate` does to the metadata
                             # afterwards is the conversion model's part, see program/convert)
-                            want = {k: "\n".join(v) for k, v in mmeta.items() if k in STR_META}
+                            want = {k: "\n".join(v) for k, v in mmeta.items() if k in STR_META or k == "summary"}
                             if want != e["meta_parsed"]:
                                 n_corr += 1
                                 rep.tie_broken(f"correspondence program/meta: entity {n_!r} model {want} vs implementation {e['meta_parsed']}", case)
